@@ -62,10 +62,11 @@ type scenario struct {
 	between      int  // other inbound messages between the local action and the peer's answer
 	appEvent     bool // application registered an EventLogout handler before the action
 	probePending bool // N=1 and 2.3 s of silence first: the session's own TestRequest is pending when the application acts
+	lateAnswer   bool // N=1 and 2.3 s of silence AFTER the local action: the session's own TestRequest goes out while the Logout answer is outstanding
 }
 
 func (s scenario) String() string {
-	return fmt.Sprintf("%s %s closeTimeout=%v pre=%d between=%d appLogoutHandler=%v ownTestRequestPending=%v", s.role, s.variant, s.closeTO, s.pre, s.between, s.appEvent, s.probePending)
+	return fmt.Sprintf("%s %s closeTimeout=%v pre=%d between=%d appLogoutHandler=%v ownTestRequestPending=%v", s.role, s.variant, s.closeTO, s.pre, s.between, s.appEvent, s.probePending) + map[bool]string{false: "", true: " answerAfterOwnTestRequest=true"}[s.lateAnswer]
 }
 
 func run(c *vk.Ctx, sc scenario, idx int) {
@@ -73,7 +74,7 @@ func run(c *vk.Ctx, sc scenario, idx int) {
 	replay := map[string]interface{}{"scenario": desc, "index": idx, "seed": c.Seed}
 	var appLogout int32
 	hbInt, lims := 30, &session.IntLimits{Min: 5, Max: 60}
-	if sc.probePending {
+	if sc.probePending || sc.lateAnswer {
 		hbInt, lims = 1, &session.IntLimits{Min: 1, Max: 60}
 	}
 	// every fourth scenario: the application watches Logout messages with two incoming and two outgoing observers
@@ -173,6 +174,24 @@ func run(c *vk.Ctx, sc scenario, idx int) {
 		for k := 0; k < sc.between; k++ {
 			r.Inbound(p.Heartbeat())
 		}
+		if sc.lateAnswer {
+			// the peer stays silent for N+1 s after our Logout: the session probes it with a TestRequest while the
+			// answer to its Logout is outstanding, and the answer arrives after that
+			seen := len(r.AllOuts())
+			time.Sleep(2300 * time.Millisecond)
+			own := 0
+			for _, o := range r.AllOuts()[seen:] {
+				if o.Type == "1" {
+					own++
+				}
+			}
+			if own == 0 {
+				c.Count("scenarios_without_own_testrequest", 1)
+				nontrivial = false
+				return
+			}
+			c.Count("logout_answers_after_own_testrequest", 1)
+		}
 		evBefore := len(r.AllEvents())
 		res = r.Inbound(p.Logout())
 		if res.TimedOut {
@@ -223,6 +242,24 @@ func run(c *vk.Ctx, sc scenario, idx int) {
 		if sc.variant == "stop-answered" {
 			for k := 0; k < sc.between; k++ {
 				r.Inbound(p.Heartbeat())
+			}
+			if sc.lateAnswer {
+				// the peer stays silent for N+1 s after our Logout: the session probes it with a TestRequest while the
+				// answer to its Logout is outstanding, and the answer arrives after that
+				seen := len(r.AllOuts())
+				time.Sleep(2300 * time.Millisecond)
+				own := 0
+				for _, o := range r.AllOuts()[seen:] {
+					if o.Type == "1" {
+						own++
+					}
+				}
+				if own == 0 {
+					c.Count("scenarios_without_own_testrequest", 1)
+					nontrivial = false
+					return
+				}
+				c.Count("logout_answers_after_own_testrequest", 1)
 			}
 			select {
 			case <-done:
@@ -736,7 +773,7 @@ func storeFaultAtLogout(c *vk.Ctx, role rig.Role, variant string, idx int) {
 
 func main() {
 	c := vk.Init("C15")
-	c.Rule("scenarios: role x variant {peer Logout while logged on (then a repeated one); local Logout() then the peer's answer after 0..3 other inbound messages; Stop() answered immediately / after other inbound messages; Stop() never answered; peer Logout / answer to the own Logout / answer to Stop arriving while the counter store fails to record that message's number; a peer Logout (or answer to the session's own Logout) that is queued behind a slow application handler when the loss of the connection is reported (8/40 trials per role and variant: the handler loop may take either first); Stop() while the outgoing path is stalled (full handler buffer nobody reads: the Logout cannot even leave) with close timeout {0,50ms,300ms,1s}; Stop()/Logout() issued while the session's own TestRequest is pending (N=1, 2.3 s of silence)} x close timeout {2s,5s} for answered and {0,50ms,300ms,2s} for unanswered x 0..3 messages before x application EventLogout handler registered before the action or not. Oracle: Logout count on Outgoing() per step, IsLogged, EventLogout, and Context().Done(): within 250 ms (+3x measured scheduler jitter) after the answer's step completed — an order of magnitude below the deadline so the deadline path cannot pass for the answer path — resp. no later than closeTimeout + 300 ms (+jitter) when unanswered. distinct = scenario tuple; non-trivial = all but those where the deadline beat the scripted answer")
+	c.Rule("scenarios: role x variant {peer Logout while logged on (then a repeated one); local Logout() then the peer's answer after 0..3 other inbound messages; Stop() answered immediately / after other inbound messages; Stop() never answered; peer Logout / answer to the own Logout / answer to Stop arriving while the counter store fails to record that message's number; a peer Logout (or answer to the session's own Logout) that is queued behind a slow application handler when the loss of the connection is reported (8/40 trials per role and variant: the handler loop may take either first); Stop() while the outgoing path is stalled (full handler buffer nobody reads: the Logout cannot even leave) with close timeout {0,50ms,300ms,1s}; Stop()/Logout() issued while the session's own TestRequest is pending (N=1, 2.3 s of silence); Stop()/Logout() whose answer arrives after 2.3 s of silence (N=1), i.e. after the session has sent a TestRequest of its own while waiting for it} x close timeout {2s,5s} for answered and {0,50ms,300ms,2s} for unanswered x 0..3 messages before x application EventLogout handler registered before the action or not. Oracle: Logout count on Outgoing() per step, IsLogged, EventLogout, and Context().Done(): within 250 ms (+3x measured scheduler jitter) after the answer's step completed — an order of magnitude below the deadline so the deadline path cannot pass for the answer path — resp. no later than closeTimeout + 300 ms (+jitter) when unanswered. distinct = scenario tuple; non-trivial = all but those where the deadline beat the scripted answer")
 	c.Assume("wall clock is used only for the two bounds the statement itself gives (as soon as the answer arrives / at the latest at the close timeout); a jitter canary turns overloaded runs into inconclusive")
 	stop := make(chan struct{})
 	go canary(stop)
@@ -744,15 +781,15 @@ func main() {
 	for _, role := range []rig.Role{rig.Acceptor, rig.Initiator} {
 		for pre := 0; pre <= c.Pick(1, 3); pre++ {
 			for _, app := range []bool{false, true} {
-				scs = append(scs, scenario{role, "peer-logout", time.Second, pre, 0, app, false})
+				scs = append(scs, scenario{role, "peer-logout", time.Second, pre, 0, app, false, false})
 				for between := 0; between <= c.Pick(1, 3); between++ {
-					scs = append(scs, scenario{role, "local-logout", time.Second, pre, between, app, false})
+					scs = append(scs, scenario{role, "local-logout", time.Second, pre, between, app, false, false})
 					for _, to := range []time.Duration{2 * time.Second, 5 * time.Second} {
-						scs = append(scs, scenario{role, "stop-answered", to, pre, between, app, false})
+						scs = append(scs, scenario{role, "stop-answered", to, pre, between, app, false, false})
 					}
 				}
 				for _, to := range []time.Duration{0, 50 * time.Millisecond, 300 * time.Millisecond, 2 * time.Second} {
-					scs = append(scs, scenario{role, "stop-unanswered", to, pre, 0, app, false})
+					scs = append(scs, scenario{role, "stop-unanswered", to, pre, 0, app, false, false})
 				}
 			}
 		}
@@ -760,6 +797,10 @@ func main() {
 	for _, role := range []rig.Role{rig.Acceptor, rig.Initiator} {
 		scs = append(scs, scenario{role: role, variant: "stop-answered", closeTO: 5 * time.Second, probePending: true})
 		scs = append(scs, scenario{role: role, variant: "local-logout", closeTO: time.Second, probePending: true, appEvent: true})
+		scs = append(scs, scenario{role: role, variant: "stop-answered", closeTO: 8 * time.Second, lateAnswer: true})
+		scs = append(scs, scenario{role: role, variant: "stop-answered", closeTO: 8 * time.Second, lateAnswer: true, appEvent: true, pre: 2})
+		scs = append(scs, scenario{role: role, variant: "local-logout", closeTO: 8 * time.Second, lateAnswer: true, appEvent: true})
+		scs = append(scs, scenario{role: role, variant: "local-logout", closeTO: 8 * time.Second, lateAnswer: true, pre: 1})
 	}
 	var wg sync.WaitGroup
 	sem := make(chan struct{}, 24)
